@@ -695,6 +695,14 @@ Proof.
   split; [intro H; vm_compute in H; discriminate H|]. split; reflexivity.
 Qed.
 
+(** Gremlin g.V().out('R').dedup(): Distinct over the whole path, then the projection *)
+Definition w_k14_q := mkQ (mkPat (mkNP "_v0" []) [hop1 Out (Some "R") None "_v1"]) None (RPlain [EVar "_v1"] true) [] None None.
+Definition w_k14_gremlin_plan : lop :=
+  LReturn [(EVar "_v1", None)] false (LDistinct (LExpand "_v0" "_v1" None Out (Some "R") 1 (Some 1%nat) (LScan "_v0" None))).
+Lemma gremlin_dedup_refuted_l : exists st q,
+  k14_gremlin_dedup LGremlin q = true /\ plan_rows st w_k14_gremlin_plan <> answer st q /\ plan_rows st (gql_plan_of q) = answer st q.
+Proof. exists w_small_st, w_k14_q. split; [reflexivity|]. split; [intro H; vm_compute in H; discriminate H|reflexivity]. Qed.
+
 (** the pre-df57ccb FilterOperator: a filter stacked on a filter resurrects rows the inner one removed *)
 Lemma filter_stack_pre_refuted_l : exists (rows : list row) (p1 p2 : row -> bool),
   chunk_pre_rows (filter_chunk_pre p2 (filter_chunk_pre p1 (mkChunkPre rows None)))
